@@ -175,7 +175,12 @@ def limit_triples(rng, meta, n=4):
 
 
 # ---------------------------------------------------------------- chunked bodies
-def gen_chunk_ext(rng):
+EXT_ODD = [b";\xff\xfe", b";x=\x80", b";note=\xc3", b";\xed\xa0\x80", b";a\rb", b";a\nb", b";\x00", b";" + b"y" * 1200]
+
+
+def gen_chunk_ext(rng, p_odd=0.0):
+    if rng.random() < p_odd:
+        return rng.choice(EXT_ODD)
     return rng.choice([b"", b"", b"", b";a", b";a=b", b";a=\"q;x\"", b";a;b;c", b"; sp", b";\xc3\xa9", b";" + b"x" * 20])
 
 
@@ -199,13 +204,13 @@ def gen_chunked(rng, p_odd=0.0, payload=None):
         size = hexnum(rng, n)
         if rng.random() < p_odd:
             size = rng.choice(HEX_ODD)
-        out += size + gen_chunk_ext(rng) + CRLF + payload[i:i + n]
+        out += size + gen_chunk_ext(rng, p_odd) + CRLF + payload[i:i + n]
         out += CRLF if rng.random() >= p_odd else rng.choice([b"\n", b"\r", b"", b"x\r\n", b"\r\r\n", b"\n\r"])
         i += n
     last = b"0" * rng.randint(1, 3)
     if rng.random() < p_odd:
         last = rng.choice(HEX_ODD)
-    out += last + gen_chunk_ext(rng) + CRLF
+    out += last + gen_chunk_ext(rng, p_odd) + CRLF
     tfields = []
     if rng.random() < 0.4:
         for _ in range(rng.randint(1, 3)):
@@ -214,6 +219,10 @@ def gen_chunked(rng, p_odd=0.0, payload=None):
                                            b"content-length: 1", b"TRANSFER-ENCODING: chunked", b"Content-Length: +1"]))
             else:
                 tfields.append(gen_field(rng, p_odd))
+    if rng.random() < 0.05:
+        # a long trailer line (the trailer section has no line limit), around the 1000-byte request default
+        total = rng.choice([990, 997, 998, 999, 1000, 1001, 1002, 1200, 3000])
+        tfields.insert(rng.randint(0, len(tfields)), b"X-Long-Trailer: " + b"t" * (total - 16 - 2))
     out += block(tfields)
     return out, payload, tfields
 
@@ -369,6 +378,21 @@ def zl(data, level=6):
 def raw_deflate(data, level=6):
     co = zlib.compressobj(level, zlib.DEFLATED, -15)
     return co.compress(data) + co.flush()
+
+
+def zlib_looking_raw(rng, payload=b"Hello, World!"):
+    """a valid *raw* deflate stream (stored blocks only) whose first two bytes pass the zlib header check
+    (CM = 8, CINFO <= 7, FDICT clear, multiple of 31): it is not a zlib stream, and the crate has no
+    fallback from a failed zlib reading to a raw one"""
+    cmf = rng.choice([0x08, 0x18, 0x28, 0x38, 0x48, 0x58, 0x68, 0x78])
+    flgs = [f for f in range(256) if (cmf * 256 + f) % 31 == 0 and not f & 0x20]
+    flg = rng.choice(flgs)
+    ln = flg + 256 * rng.choice([0, 0, 1])
+    data = bytes(rng.randrange(256) for _ in range(ln))
+    out = bytes([cmf]) + ln.to_bytes(2, "little") + (ln ^ 0xffff).to_bytes(2, "little") + data
+    out += b"\x00" + len(payload).to_bytes(2, "little") + (len(payload) ^ 0xffff).to_bytes(2, "little") + payload
+    out += b"\x01\x00\x00\xff\xff"
+    return out, data + payload
 
 
 def gen_plain(rng, big=False):
